@@ -35,6 +35,10 @@ theorem C15_allow_list_in_provider :
 theorem C15_tool_renames_agree_with_table :
     (∀ p ∈ toolRenames, p ∈ trampolineImportPairs) ∧ toolLeftInApi = [] := by decide +kernel
 
+/-- where the tool insists on a signature it does so for every occurrence of the import: no function is
+    accepted when imported twice, once with the public signature and once with a perturbed one -/
+theorem C15_signature_checked_at_every_occurrence : toolAcceptsDupBadSig = [] := by decide +kernel
+
 /-- one import module name everywhere, and it is `shopify_function_v<major>` of provider and trampoline -/
 theorem C15_module_name :
     moduleNamesWat = [moduleNameHeader] ∧ moduleNameHeaderImports = [moduleNameHeader] ∧
